@@ -33,7 +33,7 @@ EXN = {'PedanticTypeCheckException': 'PTypeCheckC', 'PedanticTypeVarMismatchExce
 # `name` is rejected for every instance).  While the repair is pending both shapes of the two functions involved are
 # accepted and the shape found is emitted (plain_class_complete, newtype_test_by_class); the harness generates such class
 # names only for the repaired shape.  After the `fix:` commit set this to False: the pre-fix shapes are then refused by name.
-ACCEPT_PRE_FIX_CLASS_NAME_SHAPES = True
+ACCEPT_PRE_FIX_CLASS_NAME_SHAPES = False
 
 
 def bad(reason):
